@@ -149,7 +149,7 @@ func gen(r *vh.Rand, tier string, n int, emit func(vh.Case)) {
 					op = fmt.Sprintf("pubcat %d", f)
 				case x < 88:
 					op = vh.Pick(r, []string{fmt.Sprintf("touch %d %d", w, f), fmt.Sprintf("fflush %d %d", w, f), fmt.Sprintf("fsync %d %d", w, f),
-						fmt.Sprintf("rootflush %d", w), fmt.Sprintf("lsnames %d", w), fmt.Sprintf("mvprobe %d %s", w, vh.Pick(r, []string{"s", "w"}))})
+						fmt.Sprintf("rootflush %d", w), fmt.Sprintf("lsnames %d", w), fmt.Sprintf("mvprobe %d %s", w, vh.Pick(r, []string{"s", "w"})), fmt.Sprintf("symopen %d", w)})
 				case x < 92:
 					op = fmt.Sprintf("ls %d", w)
 				case x < 96:
